@@ -156,6 +156,11 @@ class QuietDoc(dict):
 
     __repr__ = __str__
 
+    def __ch_deep_realize__(self, memo):
+        # CrossHair deep-realises every argument of str.format(); returning self keeps
+        # the symbolic leaves symbolic (the rendering above does not look at them).
+        return self
+
     def __deepcopy__(self, memo):
         import copy
         return QuietDoc({k: copy.deepcopy(v, memo) for k, v in self.items()})
